@@ -51,6 +51,7 @@ The full data structure is
 
 """
 
+import itertools
 import random
 from pprint import pprint
 
@@ -405,10 +406,24 @@ def data_generator(data, fun=_data_split, args=(), kwargs=None, MAX_ITER=1000):
     """Data generator: call ``fun`` to each ``data`` as a generator. The extra arguments will be passed to ``fun``."""
     kwargs = kwargs if kwargs is not None else {}
 
+    def _has_leaf(dat):
+        if isinstance(dat, dict):
+            return any(_has_leaf(v) for v in dat.values())
+        if isinstance(dat, (list, tuple)):
+            return any(_has_leaf(v) for v in dat)
+        return True
+
+    # an empty container goes along with every batch of the arrays next to it;
+    # MAX_ITER only ends the iteration of a structure without any array
+    if _has_leaf(data):
+        n_empty = itertools.count
+    else:
+        n_empty = lambda: range(MAX_ITER)
+
     def _gen(dat):
         if isinstance(dat, dict):
             if not dat:
-                for i in range(MAX_ITER):
+                for i in n_empty():
                     yield {}
             ks, vs = [], []
             for k, v in dat.items():
@@ -418,7 +433,7 @@ def data_generator(data, fun=_data_split, args=(), kwargs=None, MAX_ITER=1000):
                 yield type(dat)(zip(ks, s_data))
         elif isinstance(dat, list):
             if not dat:
-                for i in range(MAX_ITER):
+                for i in n_empty():
                     yield []
             vs = []
             for v in dat:
@@ -426,6 +441,9 @@ def data_generator(data, fun=_data_split, args=(), kwargs=None, MAX_ITER=1000):
             for s_data in zip(*vs):
                 yield list(s_data)
         elif isinstance(dat, tuple):
+            if not dat:
+                for i in n_empty():
+                    yield ()
             vs = []
             for v in dat:
                 vs.append(_gen(v))
